@@ -379,8 +379,12 @@ func (g *ProgGen) command(sc *gscope, depth int, self int) Cmd {
 		var cases []Cmd
 		for k, n := 0, 1+g.pick(2); k < n; k++ {
 			var vals []E
-			for j, m := 0, 1+g.pick(2); j < m; j++ {
-				if typ == "int" {
+			for j, m := 0, 1+g.pick(3); j < m; j++ {
+				if j > 0 && g.pick(2) == 0 {
+					// a later value of {case a, b, c} that is an expression: a
+					// data reference or (Rich) a global may occur ONLY here
+					vals = append(vals, g.expr(sc, typ, 0))
+				} else if typ == "int" {
 					vals = append(vals, EInt(g.pick(4)))
 				} else {
 					vals = append(vals, EStr(strLits[g.pick(len(strLits))]))
